@@ -8,7 +8,9 @@ package main
 // once (two revisions of one contract in two transactions, a revision followed by a renewal, two storage proofs that
 // carry the same chain index element) — the multiproof codec has to restore every reference; and v1 transactions
 // whose signatures cover the transaction field by field (CoveredFields without WholeTransaction: the only path to
-// State.PartialSigHash), alone and followed by v2 blocks.  Every step must be accepted by the real code.  The fixed
+// State.PartialSigHash), alone and followed by v2 blocks; and v1 blocks that touch one contract more than once (formed
+// and revised, revised twice, revised and proved in one block) — the payout of a v1 revision is not transmitted, so
+// the copies of such a block differ in memory and must not differ in effect.  Every step must be accepted by the real code.  The fixed
 // behaviours run in the same goroutine pool as the drawn behaviours of their shape (the hasher pools are global).
 
 import (
@@ -176,6 +178,24 @@ func fixedBehaviours() []fixedBehaviour {
 			block(sfTxTagged(1, "sf"+partialMark)),
 			block(chain.AbsTx{Ver: 1, Sci: in(chain.SID{chain.SCO, 1, 0, 2, 0}), Sco: []chain.AbsOut{{Val: 599391, Addr: "B"}}, Tag: "pay" + partialMark},
 				chain.AbsTx{Ver: 2, Sci: in(sc(2), sc(3)), Sco: []chain.AbsOut{{Val: 257610, Addr: "A"}}, Tag: "pay2"}),
+		}},
+		// ---- one v1 contract touched more than once in a block (the revision's payout is not transmitted) ------------
+		{"v1-form-and-revise-in-one-block", "v1only", []chain.Step{
+			block(chain.AbsTx{Ver: 1, Sci: in(sc(2)), Fc: []json.RawMessage{c1JSON(3, 5, 0, 0)}, Tag: "form1"},
+				chain.AbsTx{Ver: 1, Rev: []chain.AbsRev{{Cid: fc1, C: c1JSON(3, 5, 1, 24), Auth: "ok"}}, Tag: "rev1"}),
+			block(chain.AbsTx{Ver: 1, Rev: []chain.AbsRev{{Cid: fc1, C: c1JSON(3, 5, 2, 48), Auth: "ok"}}, Tag: "rev1"}),
+		}},
+		{"v1-two-revisions-in-one-block", "v1only", []chain.Step{
+			block(chain.AbsTx{Ver: 1, Sci: in(sc(2)), Fc: []json.RawMessage{c1JSON(3, 5, 0, 0)}, Tag: "form1"}),
+			block(chain.AbsTx{Ver: 1, Rev: []chain.AbsRev{{Cid: fc1, C: c1JSON(3, 5, 1, 24), Auth: "ok"}}, Tag: "rev1"},
+				chain.AbsTx{Ver: 1, Rev: []chain.AbsRev{{Cid: fc1, C: c1JSON(3, 5, 2, 48), Auth: "ok"}}, Tag: "rev1"},
+				sfTx(1)),
+		}},
+		{"v1-revise-then-prove-in-one-block", "v1only", []chain.Step{
+			block(chain.AbsTx{Ver: 1, Sci: in(sc(2)), Fc: []json.RawMessage{c1JSON(3, 5, 0, 0)}, Tag: "form1"}),
+			block(chain.AbsTx{Ver: 1, Sci: in(sc(3)), Sco: []chain.AbsOut{{Val: 1199, Addr: "A"}}, Tag: "pay"}),
+			block(chain.AbsTx{Ver: 1, Rev: []chain.AbsRev{{Cid: fc1, C: c1JSON(3, 5, 1, 24), Auth: "ok"}}, Tag: "rev1"},
+				chain.AbsTx{Ver: 1, Res: []chain.AbsRes{{Cid: fc1, Kind: "proof", Pf: "ok", Ren: noRen}}, Tag: "prove1"}),
 		}},
 		{"v1-contract", "v1only", []chain.Step{
 			block(chain.AbsTx{Ver: 1, Sci: in(sc(2)), Fc: []json.RawMessage{c1JSON(3, 5, 0, 0)}, Tag: "form1"},
